@@ -10,7 +10,7 @@ ID = "C15"
 ENGINE = "E1 product-space explorer"
 RULE = ("product of bases (1-3 shells, l 0..3, generalized, every coordinate-type pattern) x density class {PSD, "
         "indefinite} x transformation {none, square, rectangular} x alpha in {0, 1/2, 1, -0.3, 0.25, 2} x beta in "
-        "{0, 1, -1.5} (all special-cased values and generic ones); stress tensor compared with its documented "
+        "{0, 1, -1.5} (all special-cased values and generic ones), plus alpha/beta a few 1e-6 away from each special-cased value; stress tensor compared with its documented "
         "definition in the D(p;q) term algebra; the force with MINUS THE DIVERGENCE of that definition and the Hessian "
         "with the JACOBIAN of that force, both derived mechanically (product rule), never transcribed from the code; "
         "symmetry of sigma, H_sym = (H + H^T)/2. Non-trivial = reference not identically zero.")
@@ -21,12 +21,15 @@ CHUNK = 1
 BASES = [[(0, 2, 2)], [(1, 1, 1)], [(2, 1, 1), (0, 1, 2)], [(3, 1, 1), (1, 2, 1)], [(0, 1, 1), (1, 1, 2), (2, 2, 1)]]
 ALPHAS = [0, 0.5, 1, -0.3, 0.25, 2]
 BETAS = [0, 1, -1.5]
+# values a few 1e-6 away from the special-cased ones (the special cases are exact equalities, not neighbourhoods)
+NEAR_ALPHAS = [1 - 4e-6, 0.5 + 3e-6, 2e-6, -3e-6]
+NEAR_BETAS = [2e-6, 1]
 TRANS = ["none", "square", "rect"]
 
 
 def bounds(tier):
     return {"bases": len(BASES), "type_patterns": "all 2^n", "density_classes": 3, "transforms": 3,
-            "alpha": ALPHAS, "beta": BETAS,
+            "alpha": ALPHAS, "beta": BETAS, "near_special_alpha": NEAR_ALPHAS, "near_special_beta": NEAR_BETAS,
             "hessian_alpha_beta": "all 18" if tier != "quick" else "6 pairs covering every special-cased value"}
 
 
@@ -41,6 +44,11 @@ def configs(tier, seed):
                     out.append({"basis": bi, "types": list(tp), "dens": dens, "tr": tr, "tier": tier})
     out.append({"basis": 1, "types": ["spherical"], "dens": "indef", "tr": "square", "tier": tier, "npts": 20})
     out.append({"basis": 0, "types": ["cartesian"], "dens": "psd", "tr": "none", "tier": tier, "npts": 3})
+    for bi in (0, 1, 2):
+        out.append({"basis": bi, "types": ["cartesian", "spherical"][:len(BASES[bi])], "dens": ("indef", "psd")[bi % 2],
+                    "tr": TRANS[bi], "tier": tier, "near": 1})
+    for npts in (1, 2, 4):
+        out.append({"basis": 0, "types": ["cartesian"], "dens": "indef", "tr": "none", "tier": tier, "npts": npts})
     return out
 
 
@@ -53,7 +61,9 @@ def build(cfg):
         shells.append(RefShell(l, cs[i], exps, al.coeffs(K, M, rot=i), cfg["types"][i]))
     c0 = np.array(cs[0])
     pts = [c0, c0 + np.array([0.0, 0.5, -0.4])] + [np.array(hvec("st-pt%d" % i, 3, -1.8, 1.8))
-                                                    for i in range(4 if not cfg.get("npts") else cfg["npts"] - 2)]
+                                                    for i in range(4 if not cfg.get("npts") else max(1, cfg["npts"] - 2))]
+    if cfg.get("npts") in (1, 2):
+        pts = pts[::-1][:cfg["npts"]]
     return shells, np.array(pts)
 
 
@@ -91,8 +101,9 @@ def evaluate(cfg):
 
     quick = cfg.get("tier") == "quick"
     hess_pairs = {(0, 0), (0.5, 1), (1, -1.5), (-0.3, 0), (0.25, 1), (2, -1.5)}
-    for alpha in ALPHAS:
-        for beta in BETAS:
+    near = bool(cfg.get("near"))
+    for alpha in (NEAR_ALPHAS if near else ALPHAS):
+        for beta in (NEAR_BETAS if near else BETAS):
             tag = " alpha=%s beta=%s" % (alpha, beta)
             sig = [[R(er.stress(i, j, alpha, beta)) for j in range(3)] for i in range(3)]
             sref = np.stack([np.stack([sig[i][j][0] for j in range(3)], axis=1) for i in range(3)], axis=1)
@@ -107,7 +118,7 @@ def evaluate(cfg):
             F = st.evaluate_ehrenfest_force(gam, g, pts, alpha=alpha, beta=beta, **kw)
             o.call()
             o.cmp("evaluate_ehrenfest_force == -div sigma" + tag, F, fref, TOL, fmag, key="force")
-            if quick and (alpha, beta) not in hess_pairs:
+            if quick and not near and (alpha, beta) not in hess_pairs:
                 continue
             he = [[R(er.force_jacobian(i, j, alpha, beta)) for j in range(3)] for i in range(3)]
             href = np.stack([np.stack([he[i][j][0] for j in range(3)], axis=1) for i in range(3)], axis=1)
